@@ -237,7 +237,7 @@ LOOPING = {
 }
 # stepped into: closures and every stun_rs function that is not itself an encoder (checked on its own), a padding /
 # bounds helper or the address XOR helper
-STEP = [r"\{closure", r"^stun_rs::(?!.*(::encode$|xor_encode$|fill_padding_value$|check_buffer_boundaries$|socket_addr_xor$|"
+STEP = [r"\{closure", r"^stun_rs::(?!.*(::encode$|xor_encode$|fill_padding_value$|check_buffer_boundaries$|socket_addr_xor$|::padding$|"
                       r"MessageHeader.*::decode$|StunError|::fmt$))"]
 DISPATCH = "<stun_rs::attributes::StunAttribute as stun_rs::attributes::EncodeAttributeValue>::encode"
 
